@@ -14,3 +14,5 @@ import DDS.Props.C18
 import DDS.Props.C18Bits
 import DDS.Props.C10
 import DDS.Props.C20
+import DDS.Props.C07
+import DDS.Props.C08
